@@ -7,7 +7,7 @@ check("C13", "exploration",
       "calls invalid(lo, hi), the span of the first parse diagnostic covers a token of the window lo..hi; (5) layout variants of every invalid sample "
       "(no final newline, behind a 300-column multi-byte line, as one line, as second / third module of a set, twice in one file): the expected place of each "
       "diagnostic is decided by TLC (Diagnostics!CoversAt); (6) operator chains `a | b | c` whose k-th operand has another type, in every layout and "
-      "context (PipelineShapes.tla, family chain): the E551 / E550 touches the operator TLC names or spans one of its operands (Diagnostics!CoversParts).",
+      "context (PipelineShapes.tla, family chain): the E551 / E550 touches the operator TLC names or spans one of its operands (Diagnostics!CoversParts); (7) E351 / E358 return types of public functions in imported modules, in every module order: the diagnostic intersects the return type in the declaring file.",
       "'Covers the offending text' is decided only where the offending text is known (injected lexical faults, E402 specials, operator chains); elsewhere "
       "well-formedness of the location. The rendering observation (write returned Ok) is made by the harness. Line starts are computed by "
       "the harness, not by the lexer under test. `col` and clean rendering (no ESC without colour, ASCII frames) are notes only here.",
